@@ -1,5 +1,6 @@
 CONSTANTS
   NSlots = 26
+  Lean = FALSE
   Vocab = "all"
 INIT Init
 NEXT Next
